@@ -115,8 +115,10 @@ rest-of-header — every number leaf of `sflowTree d` is an RFC 8259 number, eve
 key a string body.  **The tree is the faithfulness statement**: the datagram header fields by Go field
 name in declaration order, each the exact decimal text of the decoded value; `Samples` / `Counters` in
 decode order; `Records` as a map with sorted keys (`ExtRouter` < `ExtSwitch` < `RawHeader`; `EthInt` <
-`GenInt` < `Proc` < `TRInt` < `VGInt` < `Vlan`); the sampled packet as `L2` / `L3` / `L4` objects (`null`
-when absent) with MACs as `xx:xx:…` text, addresses as `net.IP.String` text, `[]byte` as base64;
+`GenInt` < `Proc` < `TRInt` < `VGInt` < `Vlan`); the raw packet header record (F33) as its own `Protocol`,
+`FrameLength`, `Stripped`, `HeaderLength` — each the exact decimal text of the word read — followed, when the
+sampled octets have a breakdown, by the sampled packet's `L2` / `L3` / `L4` objects (`null`
+when a layer is absent) with MACs as `xx:xx:…` text, addresses as `net.IP.String` text, `[]byte` as base64;
 `IPAddress` / `NextHop` as `net.IP.MarshalText`. -/
 theorem sflow_tree_wf (d : Datagram) : WF (sflowTree d) := wf_sflowTree d
 
@@ -135,6 +137,11 @@ theorem sflow_published_valid (d : Datagram) (bs : Bytes) (h : sflowJson? d = so
   split at h
   · injection h with h; rw [← h]; exact sflow_json_valid d
   · simp at h
+
+/-- the raw packet header record alone (F33): its four words and, when there is one, the packet's layers — for every
+record value, with or without a packet -/
+theorem sflow_raw_header_valid (h : RawHeader) : DVal (render (rawHeaderTree h)) (rawHeaderTree h) :=
+  derives_render _ (wf_rawHeaderTree h)
 
 /-- the sampled packet alone (what the `dissect` correspondence compares) -/
 theorem sflow_packet_valid (p : Packet.Pkt) : DVal (render (pktTree p)) (pktTree p) :=
@@ -187,7 +194,7 @@ def examplePkt : Packet.Pkt :=
 def exampleFlowSample : FlowSample :=
   { seqNo := 1, sourceID := 3, sourceIDIdx := 16777215, samplingRate := 512, samplePool := 1024, drops := 0, input := 1, output := 2,
     recordsNo := 3,
-    recs := { raw := some examplePkt,
+    recs := { raw := some ⟨1, 1518, 4, 54, some examplePkt⟩,
               sw := some { srcVlan := 10, srcPriority := 0, dstVlan := 20, dstPriority := 0 },
               rtr := some { nextHop := [0x20, 0x01, 0x0d, 0xb8, 0, 0, 0, 0, 0, 0, 0, 0, 0, 0, 0, 1],
                             srcMask := 24, dstMask := 16 } } }
@@ -210,7 +217,8 @@ example : sflowJson? exampleDatagram = some (txt [
     "\"Input\":1,\"Output\":2,\"RecordsNo\":3,\"Records\":{",
     "\"ExtRouter\":{\"NextHop\":\"2001:db8::1\",\"SrcMask\":24,\"DstMask\":16},",
     "\"ExtSwitch\":{\"SrcVlan\":10,\"SrcPriority\":0,\"DstVlan\":20,",
-    "\"DstPriority\":0},\"RawHeader\":{\"L2\":{\"SrcMAC\":\"00:11:22:33:44:55\",",
+    "\"DstPriority\":0},\"RawHeader\":{\"Protocol\":1,\"FrameLength\":1518,",
+    "\"Stripped\":4,\"HeaderLength\":54,\"L2\":{\"SrcMAC\":\"00:11:22:33:44:55\",",
     "\"DstMAC\":\"aa:bb:cc:dd:ee:ff\",\"Vlan\":0,\"EtherType\":2048},",
     "\"L3\":{\"Version\":4,\"TOS\":0,\"TotalLen\":40,\"ID\":1,\"Flags\":2,",
     "\"FragOff\":0,\"TTL\":64,\"Protocol\":6,\"Checksum\":0,",
@@ -225,6 +233,16 @@ example : sflowJson? exampleDatagram = some (txt [
 example : render (pktTree ⟨{}, .none, .icmp 8 0 [1, 2, 3, 4]⟩) = txt [
     "{\"L2\":{\"SrcMAC\":\"\",\"DstMAC\":\"\",\"Vlan\":0,\"EtherType\":0},",
     "\"L3\":null,\"L4\":{\"Type\":8,\"Code\":0,\"RestHeader\":\"AQIDBA==\"}}"] := by decide +kernel
+
+/-- F33: the raw-header record of a sampled header without a breakdown is its own four words, no `L2` / `L3` / `L4`
+members and no `null` (the embedded `*packet.Packet` is nil); with a packet the words come first, the layers keep
+their names and values -/
+example : render (rawHeaderTree ⟨7, 1400, 0, 5, none⟩) = txt [
+    "{\"Protocol\":7,\"FrameLength\":1400,\"Stripped\":0,\"HeaderLength\":5}"] ∧
+    render (rawHeaderTree ⟨11, 4294967295, 4, 28, some ⟨{}, .none, .udp 53 4660⟩⟩) = txt [
+    "{\"Protocol\":11,\"FrameLength\":4294967295,\"Stripped\":4,",
+    "\"HeaderLength\":28,\"L2\":{\"SrcMAC\":\"\",\"DstMAC\":\"\",\"Vlan\":0,",
+    "\"EtherType\":0},\"L3\":null,\"L4\":{\"SrcPort\":53,\"DstPort\":4660}}"] := by decide +kernel
 
 /-- a 5-octet agent address cannot be marshalled: nothing is published -/
 example : sflowJson? { exampleDatagram with ip := [1, 2, 3, 4, 5] } = none := by decide +kernel
